@@ -133,3 +133,83 @@ Proof.
       unfold count in *. destruct s; cbn [filter is_fail is_warn]; rewrite ?lenN_cons';
         split; (rewrite H4 || rewrite H5); f_equal; lia.
 Qed.
+
+(* ---- C-MOVE: every response (pending and final) correlates with the request ------------------------ *)
+Lemma move_rsp_correlates q st a b c d : q_cf q = 33 -> correlates q (move_rsp q st a b c d).
+Proof. intros H. unfold correlates, response_of. cbn. rewrite H. repeat split. Qed.
+
+Lemma move_loop_correlates q nop : q_cf q = 33 -> forall subs done failed warned,
+  Forall (correlates q) (move_loop q nop subs done failed warned).
+Proof.
+  intros H. induction subs as [|s r IH]; intros done failed warned; cbn [move_loop].
+  - constructor; [apply move_rsp_correlates; exact H|constructor].
+  - constructor; [apply move_rsp_correlates; exact H|apply IH].
+Qed.
+
+Lemma move_scp_correlates q nop subs : q_cf q = 33 -> Forall (correlates q) (move_scp q nop subs).
+Proof.
+  intros H. unfold move_scp. destruct (nop =? 0).
+  - constructor; [apply move_rsp_correlates; exact H|constructor].
+  - apply move_loop_correlates. exact H.
+Qed.
+
+(* ---- every request that reaches a provider is answered: the response list ends with exactly one
+        final (non-pending) response, everything before it is pending -------------------------------- *)
+Definition final_status (r : rsp) : Prop :=
+  match o_status r with Some s => s <> 65280 /\ s <> 65281 | None => False end.
+Definition pending_status (r : rsp) : Prop :=
+  match o_status r with Some s => s = 65280 \/ s = 65281 | None => False end.
+
+Definition answered (rs : list rsp) : Prop :=
+  exists pend final, rs = pend ++ [final] /\ Forall pending_status pend /\ final_status final.
+
+Lemma single_answered r : final_status r -> answered [r].
+Proof. intros H. exists [], r. split; [reflexivity|]. split; [constructor|exact H]. Qed.
+
+Lemma find_scp_answered q matches : Forall (fun m => find_pending (snd m) = true) matches ->
+  answered (find_scp q matches).
+Proof.
+  intros Hm. unfold find_scp. eexists _, _. split; [reflexivity|]. split.
+  - apply Forall_forall. intros r Hr. apply in_map_iff in Hr. destruct Hr as [m [<- Hin]].
+    rewrite Forall_forall in Hm. specialize (Hm m Hin). unfold pending_status, find_pending in *. cbn.
+    destruct (N.eqb_spec (snd m) 65280); [left; assumption|].
+    destruct (N.eqb_spec (snd m) 65281); [right; assumption|discriminate].
+  - unfold final_status. cbn. split; discriminate.
+Qed.
+
+Lemma move_scp_answered q nop subs : answered (move_scp q nop subs).
+Proof.
+  unfold move_scp. destruct (nop =? 0).
+  - apply single_answered. unfold final_status. cbn. split; discriminate.
+  - destruct (move_loop_spec q nop subs 0 0 0) as [pend [final [He [Hl [Hk [H1 _]]]]]].
+    exists pend, final. split; [exact He|]. split.
+    + apply Forall_forall. intros r Hr. apply In_nth_error in Hr. destruct Hr as [k Hk'].
+      destruct (Hk k r Hk') as [Hs _]. unfold pending_status. rewrite Hs. left. reflexivity.
+    + unfold final_status. rewrite H1. split; discriminate.
+Qed.
+
+Lemma simple_answered cf q inst st : st <> 65280 -> st <> 65281 -> answered [simple_rsp cf q inst st].
+Proof. intros A B. apply single_answered. unfold final_status. cbn. split; assumption. Qed.
+
+(* a handler status that is itself a pending code would make a single response non-final: the
+   application's statuses for these services are final ones (success, warning, failure) *)
+Definition final_code (c : N) : Prop := c <> 65280 /\ c <> 65281.
+Lemma all_answered_for q :
+  (forall o, (forall c, o = HStatus c -> final_code c) -> answered (echo_scp q o))
+  /\ (forall o, (forall c, o = HStatus c -> final_code c) -> answered (store_scp q o))
+  /\ (forall o, answered (n_action_scp q o)) /\ (forall o, answered (n_event_report_scp q o))
+  /\ (forall matches, Forall (fun m => find_pending (snd m) = true) matches -> answered (find_scp q matches))
+  /\ (forall nop subs, answered (move_scp q nop subs)).
+Proof.
+  repeat split.
+  - intros o Ho. unfold echo_scp. destruct o as [c|]; cbn [status_of].
+    + destruct (Ho c eq_refl). apply simple_answered; assumption.
+    + apply simple_answered; discriminate.
+  - intros o Ho. unfold store_scp. destruct o as [c|]; cbn [status_of].
+    + destruct (Ho c eq_refl). apply simple_answered; assumption.
+    + apply simple_answered; discriminate.
+  - intros o. unfold n_action_scp. destruct o; apply simple_answered; discriminate.
+  - intros o. unfold n_event_report_scp. destruct o; apply simple_answered; discriminate.
+  - intros matches H. apply find_scp_answered. exact H.
+  - intros nop subs. apply move_scp_answered.
+Qed.
